@@ -253,6 +253,9 @@ static void waiter(void * p)
 static void enqueuer(void * p)
 {
 	int script = *(int *)p;
+#ifdef HETER
+	do_enqueue(3); (void)script;                 // the heterogeneous queue has wait / waitFor but no DisableQueueNotify
+#else
 	if(script == 0) do_enqueue(3);
 	else if(script == 1 || script == 4) {
 		g->dqnCtor = g->clock++; g->scopeUsed = 1;
@@ -265,13 +268,16 @@ static void enqueuer(void * p)
 		g->dqnDtorEnd = g->clock++;
 	}
 	else { { Q::DisableQueueNotify d(g->q); } do_enqueue(3); }
+#endif
 }
+#ifndef HETER
 static void scope_only(void *)
 {
 	// a thread that only opens and closes a DisableQueueNotify scope (nothing pending from it)
 	Q::DisableQueueNotify d(g->q);
 	vf_yield(1);
 }
+#endif
 extern "C" void harness()
 {
 	g = new G(); g->q = new Q(); g->clock = 1;
@@ -282,7 +288,11 @@ extern "C" void harness()
 	nw = 1 + (int)vf_choose(2);
 #endif
 	for(int w = 0; w < nw; w++) { g->waitKind[w] = (int)vf_choose(2); g->waitCall[w] = 0; g->waitRet[w] = 0; }
+#ifdef HETER
+	script = 0;
+#else
 	script = (int)vf_choose(5);
+#endif
 	for(int w = 0; w < nw; w++) vf_spawn(waiter, &widx[w]);
 	vf_spawn(enqueuer, &script);
 #ifdef SCOPE_THREAD
